@@ -311,7 +311,8 @@ fn run_one(ctx: &Ctx, seq: &[Tok], u: &Universe, style: usize) {
 /// Reaches cross-section duplicates at any distance, which need >= 6 line tokens.
 fn section_enumeration(ctx: &Ctx) {
     let mut rng = Rng::fork(ctx.seed, "C17-sections");
-    let names = ["alice", "bob", "mallory", "zed"];
+    // "Bob" and "bob" are different names: lookups must be exact
+    let names = ["alice", "bob", "Bob", "mallory", "zed"];
     let pks: Vec<String> = (0..3).map(|_| refspec::encode_pk(&refspec::pubkey_of(&rng.arr32()))).collect();
     let sk = {
         let mut b = refspec::SK_MAGIC.to_vec();
